@@ -114,7 +114,7 @@ PROPS["C10"] = {
     "level_note": "The oracle is the library itself on a fresh object (the relation the property states).",
     "stages": [
         pbt("history_vs_fresh", "pbt_C10", quick={"cases": 2400, "size": 100, "shards": 8},
-            thorough={"cases": 10000, "size": 200, "shards": 16}),
+            thorough={"cases": 60000, "size": 200, "shards": 16}),
     ],
 }
 
@@ -182,8 +182,8 @@ PROPS["C06"] = {
     "technique": "fault-injection property-based testing (rapidcheck) + exhaustive single/double fault enumeration on small streams; safety + bounded-recovery oracle",
     "rule": "cases = (base stream of 1..3 endpoints x 3..8 (thorough ..12) messages, unsegmented or 2..5 segments, frames from the "
             "independent segmenter (3/4) or from the library's Encoder (1/4); fault sequence of 1..3 (thorough ..6) of drop / duplicate / "
-            "swap / move / corrupt-version / corrupt-message-type); plus exhaustively every single fault at every position of 24 "
-            "(thorough 40) fixed base streams of <=12 frames (thorough: every pair on 6 of them); non-trivial when a fault hits a frame "
+            "swap / move / corrupt-version / corrupt-message-type); plus exhaustively every single fault at every position of 40 "
+            "(thorough 120) fixed base streams of <=12 frames (thorough: every pair on the first 14 of them); non-trivial when a fault hits a frame "
             "of a segmented message AND a complete message is delivered afterwards on that endpoint; distinct = distinct serialized cases",
     "assumptions": COMMON_ASSUMPTIONS + ["payload bytes are unique per sent packet (packet id in the first bytes), so any mixture, hole or "
                                          "repetition matches no sent packet",
@@ -197,7 +197,7 @@ PROPS["C06"] = {
     "stages": [
         pbt("exhaustive_faults", "pbt_C06", mode="enum", quick={}, thorough={"timeout": 14400}),
         pbt("random_faults", "pbt_C06", quick={"cases": 4500, "size": 100, "shards": 8},
-            thorough={"cases": 10000, "size": 200, "shards": 16}),
+            thorough={"cases": 100000, "size": 200, "shards": 16}),
     ],
 }
 
@@ -219,7 +219,7 @@ PROPS["C04"] = {
     "level_note": "Trusted: harness/oracle/wire.h layouts, model.h walkFrame and judgePayload.",
     "stages": [
         pbt("reference_parse", "pbt_C04", quick={"cases": 6000, "size": 100, "shards": 8},
-            thorough={"cases": 30000, "size": 200, "shards": 16}),
+            thorough={"cases": 150000, "size": 200, "shards": 16}),
     ],
 }
 
@@ -265,7 +265,7 @@ PROPS["C15"] = {
     "stages": [
         pbt("sweeps", "pbt_C15", mode="enum", quick={}, thorough={"timeout": 7200}),
         pbt("generated_frames", "pbt_C15", quick={"cases": 12000, "size": 100, "shards": 8},
-            thorough={"cases": 50000, "size": 200, "shards": 16}),
+            thorough={"cases": 300000, "size": 200, "shards": 16}),
     ],
 }
 
@@ -313,7 +313,7 @@ PROPS["C11"] = {
     "stages": [
         pbt("exhaustive_values", "pbt_C11", mode="enum", quick={}, thorough={}),
         pbt("setter_sequences", "pbt_C11", quick={"cases": 15000, "size": 100, "shards": 8},
-            thorough={"cases": 100000, "size": 200, "shards": 16}),
+            thorough={"cases": 400000, "size": 200, "shards": 16}),
     ],
 }
 
@@ -335,7 +335,7 @@ PROPS["C12"] = {
     "stages": [
         pbt("layout_sweeps", "pbt_C12", mode="enum", quick={}, thorough={}),
         pbt("generated_writes_and_images", "pbt_C12", quick={"cases": 15000, "size": 100, "shards": 8},
-            thorough={"cases": 100000, "size": 200, "shards": 16}),
+            thorough={"cases": 400000, "size": 200, "shards": 16}),
     ],
 }
 
@@ -357,7 +357,7 @@ PROPS["C13"] = {
     "stages": [
         pbt("length_sweeps", "pbt_C13", mode="enum", quick={}, thorough={}),
         pbt("builder_histories", "pbt_C13", quick={"cases": 9000, "size": 100, "shards": 8},
-            thorough={"cases": 50000, "size": 200, "shards": 16}),
+            thorough={"cases": 400000, "size": 200, "shards": 16}),
     ],
 }
 
@@ -378,7 +378,7 @@ PROPS["C14"] = {
     "stages": [
         pbt("shape_product", "pbt_C14", mode="enum", quick={}, thorough={}),
         pbt("generated_pairs", "pbt_C14", quick={"cases": 15000, "size": 100, "shards": 8},
-            thorough={"cases": 100000, "size": 200, "shards": 16}),
+            thorough={"cases": 800000, "size": 200, "shards": 16}),
     ],
 }
 
@@ -397,7 +397,7 @@ PROPS["C16"] = {
     "stages": [
         pbt("bounded_exhaustive", "pbt_C16", mode="enum", quick={}, thorough={"timeout": 7200}),
         pbt("random_sequences", "pbt_C16", quick={"cases": 4500, "size": 100, "shards": 8},
-            thorough={"cases": 20000, "size": 200, "shards": 16}),
+            thorough={"cases": 100000, "size": 200, "shards": 16}),
     ],
 }
 
@@ -418,9 +418,9 @@ PROPS["C19"] = {
     "level_note": "Trusted: ThreadSanitizer. See DESIGN.md sec. 7 for the limits.",
     "stages": [
         pbt("tsan_workloads", "pbt_C19", variant="tsan", quick={"cases": 150, "size": 100, "shards": 8},
-            thorough={"cases": 1000, "size": 200, "shards": 16}),
+            thorough={"cases": 4000, "size": 200, "shards": 16}),
         pbt("asan_workloads", "pbt_C19", variant="asan", quick={"cases": 300, "size": 100, "shards": 8},
-            thorough={"cases": 1000, "size": 200, "shards": 8}),
+            thorough={"cases": 6000, "size": 200, "shards": 16}),
     ],
 }
 
@@ -445,10 +445,10 @@ PROPS["C20"] = {
     "stages": [
         pbt("poisoned_heap_differential", "pbt_C20", variant="plain", replay_wrapper=VALGRIND_WRAPPER,
             quick={"cases": 4500, "size": 100, "shards": 8, "dump_max": 80, "dump_every": 3},
-            thorough={"cases": 20000, "size": 200, "shards": 16, "dump_max": 150, "dump_every": 20}),
+            thorough={"cases": 100000, "size": 200, "shards": 16, "dump_max": 400, "dump_every": 50}),
         {"kind": "memcheck", "name": "memcheck_definedness", "driver": "pbt_C20", "src": "props/pbt_C20.cpp", "variant": "plain",
          "cases_from": "poisoned_heap_differential", "builds": [("pbt_C20", "plain", "props/pbt_C20.cpp", (), ("-lrapidcheck",))],
-         "quick": {"max_cases": 640, "procs": 16}, "thorough": {"max_cases": 2400, "procs": 16, "timeout": 14400}},
+         "quick": {"max_cases": 640, "procs": 16}, "thorough": {"max_cases": 6400, "procs": 16, "timeout": 14400}},
     ],
 }
 ENGINES.append({"name": "monitors", "path": "/verif/harness/props/pbt_C19.cpp, pbt_C20.cpp", "serves_properties": ["C19", "C20"],
